@@ -48,7 +48,7 @@ Norm(w) == CASE w = LRB -> <<40>> [] w = RRB -> <<41>> [] w = LCB -> <<123>> [] 
 (* ptb: only a word that is exactly one bracket character is escaped (an unescaped bracket would make the S-expression ambiguous) *)
 BracketEsc(w) == CASE w = <<40>> -> LRB [] w = <<41>> -> RRB [] w = <<123>> -> LCB [] w = <<125>> -> RCB
                    [] w = <<91>> -> LSB [] w = <<93>> -> RSB [] OTHER -> w
-WordSpell(f, w) == CASE f \in {"auto", "auto_extended", "conll"} -> Denorm(w)
+WordSpell(f, w) == CASE f \in {"auto", "auto_extended", "conll", "conll_frag"} -> Denorm(w)
                      [] f = "ja" -> Norm(w)
                      [] f = "ptb" -> BracketEsc(w)
                      [] OTHER -> w
@@ -68,8 +68,9 @@ LeafFails(f, d, x) ==
   LET w == AttrCP(d.tok, "word") IN
   (IF x.wordcp = WordSpell(f, w) THEN {} ELSE {"words"})
   \cup
-  (CASE f = "auto" ->
-          (IF XAttr(x, "pos") = AttrV(d.tok, "pos", "POS") /\ XAttr(x, "pos2") = AttrV(d.tok, "pos", "POS") THEN {} ELSE {"attrs"})
+  (CASE f \in {"auto", "conll_frag"} ->      \* a token without a POS attribute: AUTO writes POS, the CoNLL fragments write _
+          (LET dflt == IF f = "auto" THEN "POS" ELSE "_" IN
+           IF XAttr(x, "pos") = AttrV(d.tok, "pos", dflt) /\ XAttr(x, "pos2") = AttrV(d.tok, "pos", dflt) THEN {} ELSE {"attrs"})
           \cup (IF x.cat2 = x.cat THEN {} ELSE {"cats"})
      [] f = "auto_extended" ->
           (IF /\ XAttr(x, "lemma") = AttrV(d.tok, "lemma", "XX") /\ XAttr(x, "pos") = AttrV(d.tok, "pos", "XX")
@@ -84,7 +85,7 @@ LeafFails(f, d, x) ==
      [] OTHER -> {})
 
 InnerFails(f, d, x) ==
-  (IF f \in {"auto", "auto_extended"}
+  (IF f \in {"auto", "auto_extended", "conll_frag"}
    THEN (IF x.hl = (IF d.hl THEN 1 ELSE 0) THEN {} ELSE {"heads"}) \cup (IF x.n = Len(d.kids) THEN {} ELSE {"shape"})
    ELSE {})
   \cup (IF f \in {"auto_extended", "xml", "json", "html"} THEN (IF x.lab = d.lab THEN {} ELSE {"labels"}) ELSE {})
